@@ -1,7 +1,8 @@
 """C15 — structural queries on a reaction system match its reaction graph.
 
 Cases are generated directly in the JSON format of the Lean driver (Driver/C15.lean):
-  stoich = [["A",1],...]   rxn = [reac, prod, inact_reac, inact_prod, param|None, name|None]
+  stoich = [["A",1],...]   rxn = [reac, prod, inact_reac, inact_prod, param|None, name|None, paramB|None, isEq]
+                             (paramB = kb when the parameter is the pair (param, paramB); isEq: an Equilibrium instance)
   subst  = [name, comp|None]  comp = [[k, v],...]   system = {"rxns": [...], "subs": [[key, subst],...]}
 The oracle works on these plain lists with its own graph code (union-find, BFS, exact Fractions); it never
 looks at the Lean model's answers.
@@ -52,8 +53,24 @@ def s_net(rx, k):
 
 
 def s_rxn_eq(a, b):
-    """Reaction.__eq__: reac, prod, param, inact_reac, inact_prod as ORDERED dicts; name ignored"""
-    return a[0] == b[0] and a[1] == b[1] and a[2] == b[2] and a[3] == b[3] and a[4] == b[4]
+    """Reaction.__eq__: reac, prod, param, inact_reac, inact_prod as ORDERED dicts; name and class ignored"""
+    return a[0] == b[0] and a[1] == b[1] and a[2] == b[2] and a[3] == b[3] and a[4] == b[4] and a[6] == b[6]
+
+
+def s_expand(rxns):
+    """what categorize_substances works on, by the DEFINITION of an equilibrium: a plain reaction is kept, an equilibrium
+    contributes its forward reaction and the backward one = every reactant (active or inactive) becomes a product and
+    vice versa. Returns None when the real code has to raise (no (kf, kb) pair / no net effect)."""
+    out = []
+    for rx in rxns:
+        if not rx[7]:
+            out.append(rx)
+            continue
+        if rx[4] is None or rx[6] is None or not any(s_net(rx, k) != 0 for k in s_keys(rx)):
+            return None
+        out.append([rx[0], rx[1], rx[2], rx[3], rx[4], rx[5], None, False])
+        out.append([rx[1], rx[0], rx[3], rx[2], rx[6], None, None, False])
+    return out
 
 
 def components(keysets):
@@ -181,9 +198,11 @@ def nullspace(rows, n):
 
 # ------------------------------------------------------------------ real objects from specs
 def mk_rxn(rx):
-    from chempy import Reaction
-    return Reaction(OrderedDict(rx[0]), OrderedDict(rx[1]), rx[4], OrderedDict(rx[2]), OrderedDict(rx[3]),
-                    name=rx[5], checks=())
+    from chempy import Reaction, Equilibrium
+    cls = Equilibrium if rx[7] else Reaction
+    param = rx[4] if rx[6] is None else (rx[4], rx[6])
+    return cls(OrderedDict(rx[0]), OrderedDict(rx[1]), param, OrderedDict(rx[2]), OrderedDict(rx[3]),
+               name=rx[5], checks=())
 
 
 def mk_subst(s):
@@ -201,7 +220,13 @@ def mk_sys(spec):
 def show_rxn(r):
     return [[[k, int(v)] for k, v in r.reac.items()], [[k, int(v)] for k, v in r.prod.items()],
             [[k, int(v)] for k, v in r.inact_reac.items()], [[k, int(v)] for k, v in r.inact_prod.items()],
-            r.param, r.name]
+            r.param[0] if isinstance(r.param, tuple) else r.param, r.name,
+            r.param[1] if isinstance(r.param, tuple) else None, isinstance(r, _equilibrium_class())]
+
+
+def _equilibrium_class():
+    from chempy import Equilibrium
+    return Equilibrium
 
 
 def show_subst(s):
@@ -224,6 +249,10 @@ def check_err(e):
         return 'ValueError:duplicate'
     if m.startswith('Duplicate names'):
         return 'ValueError:duplicate_names'
+    if m.startswith('Exactly one rate needs to be provided'):
+        return 'ValueError:rate'
+    if m.startswith('The net stoichiometry change of all species are zero'):
+        return 'ValueError:no_effect'
     return type(e).__name__ + ':' + m[:60]
 
 
@@ -251,7 +280,28 @@ def gen_rxn(rng, pool, named_p=0.3):
     ip = gen_stoich(rng, pool, 1) if pool and rng.random() < 0.12 else []
     param = rng.choice([None, None, 0, 1, 2, 3, 4, 5])
     name = ('r%d' % rng.randint(0, 30)) if rng.random() < named_p else None
-    return [reac, prod, ir, ip, param, name]
+    return [reac, prod, ir, ip, param, name, None, False]
+
+
+def gen_equilibrium(rng, pool, named_p=0.2):
+    """an Equilibrium member: mostly with a (kf, kb) pair and a net effect, usually with inactive species (solvent-like)"""
+    rx = gen_rxn(rng, pool, named_p)
+    if pool and rng.random() < 0.7:
+        side = rng.choice([2, 3, 2, 3, 23])
+        if side in (2, 23) and not rx[2]:
+            rx[2] = gen_stoich(rng, pool, 1, zero_p=0)
+        if side in (3, 23) and not rx[3]:
+            rx[3] = gen_stoich(rng, pool, 1, zero_p=0)
+    r = rng.random()
+    if r < 0.85:
+        rx[4], rx[6] = rng.randint(1, 9), rng.randint(1, 9)
+    elif r < 0.93:
+        rx[4], rx[6] = rng.choice([None, 3]), None          # scalar K / None: as_reactions() needs a rate -> ValueError
+    else:
+        rx[4], rx[6] = 2, 3
+        rx[1], rx[3] = [list(p) for p in rx[0]], [list(p) for p in rx[2]]   # no net effect -> ValueError (any_effect)
+    rx[7] = True
+    return rx
 
 
 def reverse_of(rng, rx, extra_pool=()):
@@ -274,7 +324,7 @@ def reverse_of(rng, rx, extra_pool=()):
         if v >= 2 and all(k != kk for kk, _ in nir):
             nr[0] = [k, v - 1]
             nir = nir + [[k, 1]]
-    return [nr, np_, nir, nip, rng.choice([None, 1, 7]), None]
+    return [nr, np_, nir, nip, rng.choice([None, 1, 7]), None, None, False]
 
 
 def gen_comp(rng, degenerate=True):
@@ -292,7 +342,7 @@ def gen_comp(rng, degenerate=True):
     return comp
 
 
-def gen_sys(rng, max_s=12, max_r=12, comps=None, unknown_p=0.05, dup_p=0.06, rev_p=0.1, named_p=0.3, pool=None):
+def gen_sys(rng, max_s=12, max_r=12, comps=None, unknown_p=0.05, dup_p=0.06, rev_p=0.1, named_p=0.3, pool=None, eq_p=0.08):
     ns = rng.choice([0, 1, 2, 3] + list(range(2, max_s + 1)) * 2)
     keys = rng.sample(pool or POOL, min(ns, len(pool or POOL)))
     nclu = rng.randint(1, 4)
@@ -310,14 +360,14 @@ def gen_sys(rng, max_s=12, max_r=12, comps=None, unknown_p=0.05, dup_p=0.06, rev
         r = rng.random()
         if rxns and r < dup_p:
             src = rng.choice(rxns)
-            rx = [list(map(list, p)) for p in src[:4]] + [src[4] if rng.random() < 0.6 else 9, rng.choice([None, src[5]])]
+            rx = [list(map(list, p)) for p in src[:4]] + [src[4] if rng.random() < 0.6 else 9, rng.choice([None, src[5]]), src[6], src[7]]
         elif rxns and r < dup_p + rev_p:
             rx = reverse_of(rng, rng.choice(rxns), keys)
         else:
             pool_ = rng.choice(clusters) if clusters and rng.random() < 0.88 else [k for c in clusters for k in c]
             if rng.random() < unknown_p:
                 pool_ = pool_ + ['X?']
-            rx = gen_rxn(rng, pool_, named_p)
+            rx = gen_equilibrium(rng, pool_, named_p) if rng.random() < eq_p else gen_rxn(rng, pool_, named_p)
         rxns.append(rx)
     rng.shuffle(rxns)
     order = keys[:]
@@ -333,11 +383,11 @@ def gen_bridged_sys(rng):
     was already compared with a smaller version of group i must be compared again after i absorbed another one)"""
     m = rng.randint(3, 6)
     keys = rng.sample(POOL, 2 * m)
-    seeds = [[[[keys[2 * i], 1]], [[keys[2 * i + 1], rng.randint(1, 2)]], [], [], None, None] for i in range(m)]
+    seeds = [[[[keys[2 * i], 1]], [[keys[2 * i + 1], rng.randint(1, 2)]], [], [], None, None, None, False] for i in range(m)]
     bridges = []
     for _ in range(rng.randint(2, m + 1)):
         a, b = rng.sample(range(m), 2)
-        bridges.append([[[keys[2 * a + rng.randint(0, 1)], 1]], [[keys[2 * b + rng.randint(0, 1)], 1]], [], [], rng.choice([None, 2]), None])
+        bridges.append([[[keys[2 * a + rng.randint(0, 1)], 1]], [[keys[2 * b + rng.randint(0, 1)], 1]], [], [], rng.choice([None, 2]), None, None, False])
     rng.shuffle(seeds)
     rng.shuffle(bridges)
     rxns = seeds + bridges
@@ -397,13 +447,32 @@ class C15(Property):
     build_modules = ('ChemModel.Model.RSysGraph', 'ChemModel.Basic.Proto')
     driver = 'ChemModel/Driver/C15.lean'
     n_quick, n_thorough = 1200, 24000
+    clauses_without_theorem = (
+        '"sequences of add/subset/split" (histories) and "concatenate / + / subset / split leave their operands as built": statements about '
+        'Python object identity and mutation, not expressible in the pure model (Proofs.runOp_prefix is true by construction); decided by the '
+        'history oracle, which replays every history on plain specs by the definitions and compares EVERY system of the store after every '
+        'operation, and by the shared-OrderedDict oracle cases',
+        'per_substance_varied (dense array of all combinations of varied levels): modelled (rows in C order, ValueError/IndexError cases), '
+        'no theorem; exact correspondence + oracle (every entry of every row against base / varied level)',
+        'upper_conc_bounds with the default float64 dtype: driven by the correspondence only for compositions without a zero atom count '
+        '(there the model = exact arithmetic = dtype=object path raises ZeroDivisionError while float64 returns inf/nan with a RuntimeWarning: '
+        'outside the model); theorems are stated for the exact (Rat) computation; float rounding of sums is not modelled (inputs are dyadic)',
+        'upper bound "for every reachable state": upper_bound_valid is about every non-negative state with equal element totals; that balanced '
+        'reactions preserve the element totals is C05, not re-proved here',
+        'non-default skip_keys of upper_conc_bounds, zero stoichiometric coefficients, a bare string as substances: outside the quantifier; the '
+        'model mirrors the code and witness theorems document the behaviour',
+        'constructor with the DEFAULT checks (a hash-ordered Python set, incl. check_balance) and missing_substances_from_keys: not modelled; '
+        'the correspondence passes explicit check tuples',
+        'decompose_yields (anchor chempy/util/stoich.py): not modelled (least squares is external)',
+        'Equilibrium members: as_reactions() is modelled only for the argument-less call used by categorize_substances (pair parameter, no units)',
+    )
     rule = ('random reaction graphs with 0..12 substances / 0..12 reactions drawn from 1..4 planted clusters (plus cross-cluster '
             'reactions, isolated species, catalysts, inactive reactants/products, zero coefficients, empty reactions, duplicated and '
             'reversed reactions, unknown keys), permuted reaction orders, predicate subsets, sums, concatenations and histories of '
             'add/iadd/subset/split/concatenate; compositions over 6 elements incl. charge-only / empty / zero-count ones with integer '
             'and dyadic concentrations. A case is non-trivial when it is a distinct JSON value with at least one reaction or substance.')
     assumptions = (
-        'plain Reaction objects only (Equilibrium.as_reactions inside categorize_substances is outside the model)',
+        'members are Reaction or Equilibrium objects without units; an equilibrium parameter is None, an int or a pair of ints',
         'Python sets are modelled as lists up to membership; OrderedDicts as association lists with unique keys',
         'check_balance (C05) and missing_substances_from_keys are outside the model; constructor checks are passed as explicit tuples '
         '(the default is a Python set whose iteration order is hash-randomised)',
@@ -432,14 +501,15 @@ class C15(Property):
                ('chempy/chemistry.py', 'Reaction.__eq__'), ('chempy/chemistry.py', 'Reaction.keys'),
                ('chempy/chemistry.py', 'Reaction.net_stoich'), ('chempy/chemistry.py', 'Reaction.all_reac_stoich'),
                ('chempy/chemistry.py', 'Reaction.all_prod_stoich'), ('chempy/chemistry.py', 'Reaction._init_stoich'),
-               ('chempy/chemistry.py', 'Substance.__eq__')]
+               ('chempy/chemistry.py', 'Substance.__eq__'), ('chempy/chemistry.py', 'Equilibrium.as_reactions'),
+               ('chempy/chemistry.py', 'Reaction.check_any_effect')]
 
     # ---------------------------------------------------------------- generation
     def generate(self, rng, n, tier):
         cases = []
         kinds = (['split'] * 24 + ['categorize'] * 12 + ['identify_equilibria'] * 8 + ['participation'] * 5 + ['effect'] * 5
                  + ['subset'] * 8 + ['add'] * 4 + ['add_rxns'] * 1 + ['iadd'] * 3 + ['iadd_rxns'] * 1 + ['eq'] * 3 + ['concatenate'] * 3
-                 + ['make'] * 10 + ['array_from_dict'] * 3 + ['array_from_list'] * 2 + ['dict_from_array'] * 2
+                 + ['make'] * 10 + ['as_reactions'] * 4 + ['array_from_dict'] * 3 + ['array_from_list'] * 2 + ['dict_from_array'] * 2
                  + ['substance_index'] * 2 + ['varied'] * 2 + ['upper_bounds'] * 10 + ['history'] * 7)
         for _ in range(n):
             cases.append(self.gen_case(rng, rng.choice(kinds)))
@@ -464,7 +534,12 @@ class C15(Property):
             rng.shuffle(perm)
             return {'op': 'split', 'sys': spec, 'checks': gen_checks(rng) if rng.random() < 0.3 else [], 'perm': perm}
         if kind == 'categorize':
-            return {'op': 'categorize', 'sys': gen_sys(rng), 'checks': gen_checks(rng) if rng.random() < 0.3 else []}
+            return {'op': 'categorize', 'sys': gen_sys(rng, eq_p=rng.choice([0, 0.1, 0.3, 0.6])),
+                    'checks': gen_checks(rng) if rng.random() < 0.3 else []}
+        if kind == 'as_reactions':
+            pool = rng.sample(POOL, rng.randint(1, 5))
+            rx = gen_equilibrium(rng, pool, 0.4)
+            return {'op': 'as_reactions', 'rxn': rx, 'subs': [[k, [k, None]] for k in pool]}
         if kind == 'identify_equilibria':
             return {'op': 'identify_equilibria', 'sys': gen_sys(rng, rev_p=0.35, dup_p=0.1)}
         if kind in ('participation', 'effect', 'substance_index'):
@@ -506,9 +581,11 @@ class C15(Property):
             systems = [base]
             for _ in range(rng.randint(0, 3)):
                 s = gen_sys(rng, 6, 5, pool=pool, unknown_p=0)
-                if base['rxns'] and rng.random() < 0.6:                            # plant stoichiometric duplicates
-                    src = rng.choice(base['rxns'])
-                    s['rxns'].append([list(map(list, p)) for p in src[:4]] + [rng.choice([None, 5]), None])
+                earlier = [r for t in systems for r in t['rxns']]                   # of the first OR of an intermediate system
+                if earlier and rng.random() < 0.7:                                 # plant stoichiometric duplicates
+                    src = rng.choice(earlier if rng.random() < 0.7 else (base['rxns'] or earlier))
+                    s['rxns'].insert(rng.randint(0, len(s['rxns'])),
+                                     [list(map(list, p)) for p in src[:4]] + [rng.choice([None, 5]), None, None, False])
                     have = [k for k, _ in s['subs']]
                     for k in s_keys(src):
                         if k not in have:
@@ -577,8 +654,14 @@ class C15(Property):
                 spec['subs'][rng.randrange(len(spec['subs']))][1][1] = None
             n = len(spec['subs']) if rng.random() < 0.93 else rng.randint(0, 13)
             skip = [0] if rng.random() < 0.85 else rng.choice([[], [0, 1], [8], [0, 6, 7]])
-            return {'op': 'upper_bounds', 'sys': spec, 'init': [dyadic(rng) for _ in range(n)], 'skip': skip,
-                    'state_seed': rng.randint(0, 10 ** 9)}
+            c = {'op': 'upper_bounds', 'sys': spec, 'init': [dyadic(rng) for _ in range(n)], 'skip': skip,
+                 'state_seed': rng.randint(0, 10 ** 9)}
+            zero = any(v == 0 and k != 0 for _, sb in spec['subs'] for k, v in (sb[1] or []))
+            if not zero and rng.random() < 0.4:
+                # the DEFAULT call (dtype=float64). Only without a zero atom count: there numpy returns inf/nan + RuntimeWarning
+                # where exact arithmetic (the model, dtype=object) raises ZeroDivisionError — outside the model, see notes
+                c['dtype'] = 'float'
+            return c
         if kind == 'history':
             pool = rng.sample(POOL, 8)
             store = [gen_sys(rng, 7, 5, pool=pool, unknown_p=0) for _ in range(rng.randint(1, 3))]
@@ -652,6 +735,12 @@ class C15(Property):
                     return check_err(e)
                 keys = list(rs.substances)
                 return dumps([[k for k in keys if k in cat[nm]] for nm in ('accumulated', 'depleted', 'unaffected', 'nonparticipating')])
+            if op == 'as_reactions':
+                try:
+                    f, b = mk_rxn(c['rxn']).as_reactions()
+                except ValueError as e:
+                    return check_err(e)
+                return dumps([show_rxn(f), show_rxn(b)])
             if op == 'identify_equilibria':
                 rs, _ = mk_sys(c['sys'])
                 return dumps([list(p) for p in rs.identify_equilibria()])
@@ -717,7 +806,10 @@ class C15(Property):
                 return '[' + ','.join(show_rat_list([Fraction(float(x)) for x in row]) for row in rows) + ']' + dumps(list(keys))
             if op == 'upper_bounds':
                 rs, _ = mk_sys(c['sys'])
-                b = rs.upper_conc_bounds([frac(v) for v in c['init']], dtype=object, skip_keys=tuple(c['skip']))
+                if c.get('dtype') == 'float':          # the default call
+                    b = rs.upper_conc_bounds([float(frac(v)) for v in c['init']], skip_keys=tuple(c['skip']))
+                else:
+                    b = rs.upper_conc_bounds([frac(v) for v in c['init']], dtype=object, skip_keys=tuple(c['skip']))
                 return dumps([repr(float(x)) for x in b])
             if op == 'history':
                 store = [mk_sys(s)[0] for s in c['store']]
@@ -764,31 +856,40 @@ class C15(Property):
         if op == 'categorize':
             spec = c['sys']
             keys = [k for k, _ in spec['subs']]
-            bad = failing_checks(spec['rxns'], keys) & set(c['checks'])
+            irrev = s_expand(spec['rxns'])      # equilibria -> forward + backward (own definition), None: cannot be expanded
+            bad = failing_checks(irrev, keys) & set(c['checks']) if irrev is not None else set()
             rs, _ = mk_sys(spec)
             try:
                 cat = rs.categorize_substances(checks=tuple(c['checks']))
             except ValueError as e:
+                if irrev is None:
+                    return None                 # an equilibrium without (kf, kb) or without net effect
                 return None if bad else 'categorize_substances raised %s on a system passing the requested checks' % e
             except IndexError:
                 # before the fix "stoichiometry matrices of a system without reactions are two-dimensional" numpy raised here
                 # (net[:, i] on a shape-(0,) array) for a system without reactions
                 return 'categorize_substances raised IndexError (%d reactions, %d substances)' % (len(spec['rxns']), len(keys))
+            if irrev is None:
+                return 'categorize_substances answered for a system with an equilibrium that cannot be split into two reactions'
             if bad:
                 return 'categorize_substances accepted a system failing ' + ','.join(sorted(bad))
             for k in keys:
-                nets = [s_net(rx, k) for rx in spec['rxns']]
+                nets = [s_net(rx, k) for rx in irrev]
                 pos, neg = any(n > 0 for n in nets), any(n < 0 for n in nets)
-                present = any(s_all_reac(rx, k) > 0 or s_all_prod(rx, k) > 0 for rx in spec['rxns'])
+                present = any(s_all_reac(rx, k) > 0 or s_all_prod(rx, k) > 0 for rx in irrev)
                 want = ('accumulated' if pos and not neg else 'depleted' if neg and not pos else None if pos and neg
                         else 'unaffected' if present else 'nonparticipating')
                 got = [nm for nm in cat if k in cat[nm]]
                 if got != ([want] if want else []):
                     return 'substance %s categorised %s, definition says %s (net effects %s)' % (k, got, want, nets)
+                if got and any(rx[7] and s_net(rx, k) != 0 for rx in spec['rxns']):
+                    return 'substance %s is %s although an equilibrium of the system both produces and consumes it' % (k, got)
             extra = set().union(*cat.values()) - set(keys)
             if extra:
                 return 'categories contain unknown keys %s' % sorted(extra)
             return None
+        if op == 'as_reactions':
+            return self._oracle_as_reactions(c)
         if op == 'identify_equilibria':
             spec = c['sys']
             keys = [k for k, _ in spec['subs']]
@@ -856,6 +957,44 @@ class C15(Property):
             return self._oracle_bounds(c)
         if op == 'history':
             return self._oracle_history(c)
+        return None
+
+    def _oracle_as_reactions(self, c):
+        """forward/backward pair of an equilibrium: the backward reaction undoes the forward one, species by species"""
+        from chempy import ReactionSystem
+        rx = c['rxn']
+        keys = s_keys(rx)
+        want = s_expand([rx])
+        try:
+            f, b = mk_rxn(rx).as_reactions()
+        except ValueError as e:
+            return None if want is None else 'as_reactions raised %s for an equilibrium with (kf, kb) and a net effect' % e
+        if want is None:
+            return 'as_reactions accepted an equilibrium without (kf, kb) pair / without net effect'
+        sf, sb = show_rxn(f), show_rxn(b)
+        for k in keys:
+            if s_net(sf, k) != s_net(rx, k):
+                return 'forward reaction changes %s by %d, the equilibrium by %d' % (k, s_net(sf, k), s_net(rx, k))
+            if s_net(sb, k) != -s_net(sf, k):
+                return 'backward reaction changes %s by %d, forward by %d: they do not cancel' % (k, s_net(sb, k), s_net(sf, k))
+            if s_all_reac(sb, k) != s_all_prod(sf, k) or s_all_prod(sb, k) != s_all_reac(sf, k):
+                return 'backward reaction does not have reactants and products of the forward one swapped for %s' % k
+        if (sf[4], sb[4]) != (rx[4], rx[6]) or sf[7] or sb[7]:
+            return 'as_reactions: parameters / classes of the pair'
+        subs = OrderedDict((k, mk_subst(v)) for k, v in c['subs'])
+        for k in keys:
+            if k not in subs:
+                subs[k] = mk_subst([k, None])
+        pair = ReactionSystem([f, b], subs, checks=())
+        if pair.identify_equilibria() != [(0, 1)]:
+            return 'identify_equilibria() on [forward, backward] = %s' % pair.identify_equilibria()
+        net = pair.net_stoichs()
+        if any(net[0][i] + net[1][i] != 0 for i in range(pair.ns)):
+            return 'net_stoichs of forward and backward do not cancel: %s' % net.tolist()
+        cat = pair.categorize_substances(checks=())
+        touched = [k for k in keys if s_net(rx, k) != 0]
+        if any(k in cat[nm] for k in touched for nm in ('accumulated', 'depleted', 'unaffected', 'nonparticipating')):
+            return 'a species changed by both directions is categorised: %s' % {nm: sorted(v) for nm, v in cat.items()}
         return None
 
     def _oracle_split(self, c):
@@ -1007,7 +1146,7 @@ class C15(Property):
             y, n = rs.subset(mk_pred(c['pred']))
             if [show_rxn(r) for r in y.rxns] != [r for r in rx if eval_pred(c['pred'], r)]:
                 return 'after concatenate, %s.subset(pred) does not filter the reactions of %s as built' % (nm, nm)
-            if rx:
+            if rx and s_expand(rx) is not None:
                 cat = rs.categorize_substances(checks=())
                 if set().union(*cat.values()) - set(keys):
                     return 'after concatenate, %s.categorize_substances() lists substances %s was not built with' % (nm, nm)
